@@ -152,6 +152,11 @@ def main(argv):
     if drv is None:
         c.broken.append("extraction/driver build failed: " + dlog[-600:])
     hx = hx_bin("hx_shard")
+    # how the tool reads its lines, as regenerated from shard_main.cc (the model follows the same flag)
+    try:
+        STRIP_CR = "shard_strip_cr : bool := true" in open(os.path.join(COQ, "theories", "Gen", "Src_shard.v")).read()
+    except OSError:
+        STRIP_CR = False
     BS = 8192                                   # kBlockSize as regenerated (the driver prints the model's constant)
     if drv:
         kout_ = run_lines(drv, ["K"])[1]
@@ -255,8 +260,10 @@ def main(argv):
     # them: CreateOrThrow opens with O_TRUNC).  A big plain run first, then the run under test.
     for n, comp, kind in ((3, "none", "few"), (4, "gzip", "one"), (5, "bzip2", "empty"), (2, "none", "empty"), (6, "gzip", "few"), (3, "none", "some")):
         runs.append({"n": n, "comp": comp, "spec": "1-", "delim": b"\t", "kind": kind, "naming": rng.choice(["prefix", "explicit"]), "history": True})
-    # classes with a known open finding, kept apart
+    # carriage returns before the newline are data (finding F-C06-cr-stripped, fixed); trailing delimiter (C10's finding, fixed)
     runs.append({"n": 5, "comp": "none", "spec": "1-", "delim": b"\t", "kind": "cr", "naming": "prefix"})
+    for n, comp in ((1, "none"), (3, "gzip"), (4, "none"), (2, "bzip2")):
+        runs.append({"n": n, "comp": comp, "spec": rng.choice(specs), "delim": b"\t", "kind": "cr-random", "naming": "prefix"})
     runs.append({"n": 7, "comp": "none", "spec": "1", "delim": b"\t", "kind": "trailing-delim", "naming": "prefix"})
 
     pending = []
@@ -269,6 +276,10 @@ def main(argv):
             data = b"".join(bytes([97 + i]) * (8191 + dlt) + b"\n" for i in range(5)) + b"tail\n"
         elif r["kind"] == "cr":
             data = b"a\r\nb\r\nplain\nx\r\r\n"
+        elif r["kind"] == "cr-random":
+            # some lines end in CR LF, some in CR CR LF, some contain a CR in the middle, the last one may end in a bare CR
+            ls = gen_input(rng, "some", delim).split(b"\n")
+            data = b"\n".join(l + rng.choice([b"", b"\r", b"\r", b"\r\r", b"\rx"]) for l in ls)
         elif r["kind"] == "trailing-delim":
             data = b"".join(b"k%d\t\nk%d\tv\nk%d\n" % (i, i, i) for i in range(12))
         else:
@@ -441,7 +452,7 @@ def main(argv):
         hl = []
         for ri, r, data, recs, outs in pending:
             for l in recs:
-                ls = l[:-1] if l.endswith(b"\r") else l
+                ls = l[:-1] if (STRIP_CR and l.endswith(b"\r")) else l
                 hl.append("H %s %s %s" % (r["spec"], r["delim"].hex(), ls.hex() if ls else "-"))
         rc, hout, herr = run_lines(hx, hl)
         if len(hout) != len(hl):
@@ -503,7 +514,7 @@ def main(argv):
                     rule="bin/shard for n = 1..17 x {none,gzip,bzip2} x naming modes (--prefix/--number, positional, -o) x key specs {1-,1,2,1-2,2-,1,3} x delimiters {tab,space,comma} x input classes (empty, one line, few lines leaving shards empty, ~100 lines with duplicates/empty lines/NUL, ~2000 lines, some with a line longer than the 8192-byte writer block, with and without final newline); naming for n = 1..129 and around powers of ten through the real ParseArgs; reversed-input metamorphic runs; dedupe on shards vs whole. distinct = distinct runs",
                     assumptions=["the key hash is an abstract function of the line in the Coq model (Murmur/field cutting belong to C14/C10); the check compares it with an independent MurmurHash64A over cut-style fields on lines that do not end in the delimiter",
                                  "timings of the per-shard writer threads are covered by C16's queue model; here every run is compared with the sequential model",
-                                 "records = FilePiece::ReadLineOrEOF with its default strip_cr (one CR before LF is dropped; open finding)"])
+                                 "records = FilePiece::ReadLineOrEOF(line, '\\n', false): lines are kept byte for byte (the CR finding is fixed)"])
 
 
 if __name__ == "__main__":
